@@ -250,10 +250,32 @@ pub fn plan_c10(thorough: bool) -> Plan {
             ));
         }
     }
+    // (c) a free list that spans two pages across reopens: deleting the 5 MiB value of seed `ovf`
+    // releases 1280 value pages (a free-list page holds 1022); reopen under every menu entry, two
+    // commits that allocate from the reloaded list with a reopen in between; decoded page
+    // accounting (no page used twice, nothing leaked) after every step
+    for m1 in &menu {
+        for big_first in [true, false] {
+            let mut cfg2 = cfg.clone();
+            cfg2.buckets = 256;
+            let first = if big_first { vec![w(1, 70000), w(2, 70000)] } else { vec![w(1, 1300), w(2, 5000)] };
+            let mut cse = case(
+                "ovf",
+                vec!["seed:0", "CL0:0-5"],
+                &cfg2,
+                "all",
+                vec![c(vec![del(0)]), json!({"reopen": m1}), c(first), json!({"reopen": {}}), c(vec![w(3, 70000), w(4, 61381), del(1)]), json!({"reopen": m1}), c(vec![w(5, 70000)]), json!({"rb": 1})],
+                3,
+                true,
+            );
+            cse["image"] = json!("c19");
+            cases.push(cse);
+        }
+    }
     sort_by_bound(&mut cases);
     let mut p = Plan::new(
         cases,
-        "histx: structural histories (empty / leaf / 20- and 21-key merkle clusters / overflow values / delete-to-one / delete-to-zero, rollback on) with a close + reopen inserted at EVERY position under every entry of a configuration menu {same, 3 workers + warm-up, minimum caches + no pinned levels, prepopulate + 3 pinned levels, 3 I/O workers, different hashtable_buckets and seed passed at reopen, same options but cold (nothing read back after the reopen)}, followed by a commit and a rollback, and all ordered pairs of menu entries in reopen-commit-reopen-commit-rollback; oracle: after every open root, every value (direct and through a session), a verifying truthful proof for every universe key, sync_seqn equal the model's, hash-table occupancy and capacity equal those before the close, and all later operations audit as if never closed.",
+        "histx: structural histories (empty / leaf / 20- and 21-key merkle clusters / overflow values / delete-to-one / delete-to-zero, rollback on) with a close + reopen inserted at EVERY position under every entry of a configuration menu {same, 3 workers + warm-up, minimum caches + no pinned levels, prepopulate + 3 pinned levels, 3 I/O workers, different hashtable_buckets and seed passed at reopen, same options but cold (nothing read back after the reopen)}, followed by a commit and a rollback, and all ordered pairs of menu entries in reopen-commit-reopen-commit-rollback; and a two-page free list (1280 pages released by deleting a 5 MiB value) carried across reopens under every menu entry, with commits allocating from it in between and the decoded page accounting checked after every step; oracle: after every open root, every value (direct and through a session), a verifying truthful proof for every universe key, sync_seqn equal the model's, hash-table occupancy and capacity equal those before the close, and all later operations audit as if never closed.",
     );
     p.budget_s = if thorough { 1700 } else { 55 };
     p
@@ -655,6 +677,20 @@ pub fn plan_c05(thorough: bool) -> Plan {
         cases.push(case(
             "cl12x20",
             vec!["NB:CL12:17-23"],
+            &cfg,
+            "proofs",
+            vec![json!({"ov": {"id": 0, "on": [], "b": b1}}), json!({"ov": {"id": 1, "on": [0], "b": b2}}), json!({"ov": {"id": 2, "on": [1, 0], "b": []}})],
+            3,
+            false,
+        ));
+    }
+    // an overlay inserting "round" keys (prefix·1·0…0 = the exclusive upper end of the key range of
+    // the sub-trie on their left, whose only leaf is on disk): proofs of every universe key and of
+    // the absent neighbours through sessions on the overlay and on a descendant
+    for (b1, b2) in [(vec![w(2, 1), w(3, 1)], vec![w(1, 1)]), (vec![w(2, 1)], vec![]), (vec![w(3, 1), del(0)], vec![w(2, 5)])] {
+        cases.push(case(
+            "round",
+            vec!["ROUND", "NB:ROUND"],
             &cfg,
             "proofs",
             vec![json!({"ov": {"id": 0, "on": [], "b": b1}}), json!({"ov": {"id": 1, "on": [0], "b": b2}}), json!({"ov": {"id": 2, "on": [1, 0], "b": []}})],
